@@ -8,6 +8,7 @@ mod c07;
 mod c08;
 mod c09;
 mod c10;
+mod c11;
 mod c13;
 mod c17;
 mod smoke;
@@ -19,6 +20,7 @@ fn main() {
     let mut rep = Report::new(&args);
     match args.prop.to_lowercase().as_str() {
         "c10" => c10::run(&args, &mut rep),
+        "c11" => c11::run(&args, &mut rep),
         "c13" => c13::run(&args, &mut rep),
         "c17" => c17::run(&args, &mut rep),
         "smoke" => smoke::run(&args, &mut rep),
